@@ -282,8 +282,9 @@ StopDom(sb) ==
   ELSE {20000} \cup OInts \cup {20001, 20002} \cup (IF Mixed THEN CVals ELSE {})
 \* extended slices: every field is a Python object (int or None); no Cython fast path
 XVals == {NONE} \cup Small \cup {SMIN, SMAX, -BIGI, BIGI}
-XSteps == {NONE, -BIGI, SMIN, -3, -2, -1, 0, 1, 2, 3, SMAX, BIGI}
+XSteps == {NONE, -BIGI, SMIN, -2, -1, 0, 1, 2, 3, SMAX}
 XConts == {c \in Conts : c.decl = "typed" \/ c.kind \in {"list", "tuple"}}
+\* (assignment to / deletion from an immutable sequence is one TypeError whatever the arguments: one shape of each)
 XOps(c) == IF Mutable(c.kind) THEN OpsM ELSE {<<"get", 0, "-">>, <<"del", 0, "-">>, <<"set", 1, "same">>}
 
 (* State machine: root -> group (container, operation, length) -> leaf (one row).  *)
@@ -296,7 +297,7 @@ Init == cse = [lvl |-> 0] /\ row = <<>>
 GroupOk(c, om, n) ==
   /\ Compiles(c, om[1])
   /\ Part = "index" => om \in {<<"get", 1, "-">>, <<"del", 1, "-">>, <<"set", 1, "same">>}
-  /\ Part = "slice" => om \in OpsM
+  /\ Part = "slice" => om \in XOps(c)
   /\ Part = "xslice" => c \in XConts /\ om \in XOps(c) /\ n >= 0
 Group ==
   /\ cse.lvl = 0
